@@ -1,17 +1,21 @@
 ------------------------ MODULE TraceScheduleHolder ------------------------
 (***************************************************************************)
-(* Direction B for the schedule in effect (ScheduleHolder.tla): each line  *)
-(* of trace.ndjson is one PUT /control/blocked_services/update of a random *)
-(* document (any zone of the host, random ranges in ms + ns, valid or not) *)
-(* against one long-lived DNSFilter, followed by GET and by Contains at    *)
-(* probe instants.  Logged: the document (tz, w, wn), the reply ok, what   *)
-(* GET returned (gtz, gw) and probes <<second, UTC offset of the zone in   *)
-(* effect at that second, answer>>.                                        *)
+(* Direction B for the schedules in effect (ScheduleHolder.tla): each line *)
+(* of trace.ndjson is one request to one of two holders "g" and "c" --     *)
+(* act = "put" (update API), "null" (update API without a schedule),       *)
+(* "yaml" / "json" (restart from a configuration document decoded on top   *)
+(* of the defaults) -- with a random document (any zone of the host,       *)
+(* random ranges in ms + ns, valid or not), followed by reading back BOTH  *)
+(* holders and asking both Contains at random instants.  Logged: h, act,   *)
+(* the document (tz, w, wn), the reply ok, and per holder what was read    *)
+(* back (tz, w, wn) and probes <<second, UTC offset of the zone in effect  *)
+(* at that second, answer>>.                                               *)
 (*                                                                         *)
 (* The step is judged with ScheduleCore!DecodeOutcomes from the state the   *)
-(* previous line OBSERVED (so that one bad step is one rejected line), and *)
-(* the probes with ScheduleCore!Contains on the logged offset.  "reset"    *)
-(* lines start a new server.                                               *)
+(* previous line OBSERVED (so that one bad step is one rejected line); the *)
+(* other holder must read back exactly as before; the probes are judged    *)
+(* with ScheduleCore!Contains on the logged offset.  "reset" lines start   *)
+(* two new servers.                                                        *)
 (***************************************************************************)
 EXTENDS Integers, Sequences, FiniteSets, TLC, Json
 
@@ -22,31 +26,44 @@ Trace == ndJsonDeserialize("trace.ndjson")
 
 VARIABLES l, live, bad
 
+Holders == {"g", "c"}
+OtherH(h) == IF h = "g" THEN "c" ELSE "g"
+
 Week4(w, wn) == [d \in 0 .. 6 |-> [s |-> w[d + 1][1], e |-> w[d + 1][2], sn |-> wn[d + 1][1], en |-> wn[d + 1][2]]]
 Doc(i) == [tz |-> Trace[i].tz, w |-> Week4(Trace[i].w, Trace[i].wn)]
-Got(i) == [tz |-> Trace[i].gtz, w |-> Week4(Trace[i].gw, Trace[i].gwn)]
+ObsOf(i, h) == IF h = "g" THEN Trace[i].g ELSE Trace[i].c
+Got(i, h) == [tz |-> ObsOf(i, h).tz, w |-> Week4(ObsOf(i, h).w, ObsOf(i, h).wn)]
 Boot   == [tz |-> "Local", w |-> [d \in 0 .. 6 |-> [s |-> 0, e |-> 0, sn |-> 0, en |-> 0]]]
 
 SecWeek(w) == [x \in 0 .. 6 |-> [s |-> w[x].s \div 1000, e |-> w[x].e \div 1000]]
-ProbesOk(i, h) ==
-    \A j \in DOMAIN Trace[i].probes :
-        LET p == Trace[i].probes[j] IN
-        RS!Contains(SecWeek(h.w), [base |-> p[2], trans |-> <<>>], [s |-> p[1], n |-> 0]) <=> (p[3] = 1)
+ProbesOk(i, h, val) ==
+    \A j \in DOMAIN ObsOf(i, h).probes :
+        LET p == ObsOf(i, h).probes[j] IN
+        RS!Contains(SecWeek(val.w), [base |-> p[2], trans |-> <<>>], [s |-> p[1], n |-> 0]) <=> (p[3] = 1)
+
+\* What the request may do to the holder it is addressed to.
+Outcomes(i) ==
+    IF Trace[i].act = "null" THEN {[ok |-> TRUE, val |-> Boot]}
+    ELSE MS!DecodeOutcomes(live[Trace[i].h], Doc(i))
 
 \* The observed step is one of the admissible outcomes, read back unchanged,
-\* and Contains answers for exactly that schedule.
+\* Contains answers for exactly that schedule -- and the other holder is
+\* exactly as it was.
 StepOk(i) ==
-    \E o \in MS!DecodeOutcomes(live, Doc(i)) :
-        /\ o.ok = (Trace[i].ok = 1)
-        /\ Got(i) = o.val
-        /\ ProbesOk(i, o.val)
+    LET h == Trace[i].h IN
+    /\ \E o \in Outcomes(i) :
+          /\ o.ok = (Trace[i].ok = 1)
+          /\ Got(i, h) = o.val
+          /\ ProbesOk(i, h, o.val)
+    /\ Got(i, OtherH(h)) = live[OtherH(h)]
+    /\ ProbesOk(i, OtherH(h), live[OtherH(h)])
 
-Init == l = 1 /\ live = Boot /\ bad = {}
+Init == l = 1 /\ live = [h \in Holders |-> Boot] /\ bad = {}
 Next == /\ l <= Len(Trace)
         /\ IF Trace[l].k = "reset"
-           THEN live' = Boot /\ bad' = bad
+           THEN live' = [h \in Holders |-> Boot] /\ bad' = bad
            ELSE /\ bad' = IF StepOk(l) THEN bad ELSE bad \cup {l}
-                /\ live' = Got(l)
+                /\ live' = [h \in Holders |-> Got(l, h)]
         /\ l' = l + 1
         /\ (l' = Len(Trace) + 1 => PrintT(<<"@@V", ToJson([n |-> Len(Trace), bad |-> bad'])>>))
 Spec == Init /\ [][Next]_<<l, live, bad>>
